@@ -1,7 +1,8 @@
 CONSTANTS
   Fields = {1, 2, 3, 4, 5, 6, 8}
   Sizes = {0, 36, 73, 4096}
-  MaxOps = 5
+  MaxOps = 4
+  MaxSets = 2
   Defects = {}
 SPECIFICATION Spec
 INVARIANTS NoError RoundTrip TablesEqual SizeBound SensitiveKept EmitCase
